@@ -16,6 +16,7 @@ import (
 	"math/big"
 	"math/rand"
 	"os"
+	"runtime"
 	"sync"
 	"sync/atomic"
 	"time"
@@ -336,13 +337,84 @@ func junkDetailed(rng *rand.Rand, height uint64, prev types.Hash, forged bool) *
 		switch rng.Intn(3) {
 		case 0:
 			rng.Read(m.Hash[:])
-		case 1:
-			m.Height = []uint64{0, 1, m.Height + 1, 1 << 63, ^uint64(0)}[rng.Intn(5)]
+		case 1: // another height under the hash of this one (the replacement may be the height it has: then the next)
+			if h := []uint64{0, 1, m.Height + 1, 1 << 63, ^uint64(0)}[rng.Intn(5)]; h != m.Height {
+				m.Height = h
+			} else {
+				m.Height++
+			}
 		default:
 			m.Hash = prev
 		}
 	}
 	return &nom.DetailedMomentum{Momentum: m, AccountBlocks: []*nom.AccountBlock{}}
+}
+
+// the handler's check of a delivered momentum, stated by the harness: it hashes to the hash it states (height 1: it
+// states the genesis hash)
+func statesOwnHash(m *nom.Momentum, genesis types.Hash) bool {
+	if m.Height == 1 {
+		return m.Hash == genesis
+	}
+	return m.ComputeHash() == m.Hash
+}
+
+// does the handler take (code, payload) WITHOUT an error? Evaluated by the harness with the rlp library on the types
+// the handler decodes into (first value of the payload, as Stream.Decode does). A message for which this holds is not
+// a protocol violation, whatever it was meant to be: the oracle offending-peer-is-dropped must not be armed by it.
+func handlerTakes(code uint64, payload []byte, genesis types.Hash) (takes bool) {
+	dec := func(v interface{}) bool {
+		return rlp.NewStream(bytes.NewReader(payload), uint64(len(payload))).Decode(v) == nil
+	}
+	if uint64(len(payload)) > protocol.ProtocolMaxMsgSize || code >= protocol.ProtocolLengths[0] {
+		return false
+	}
+	defer func() {
+		if recover() != nil {
+			takes = true // (nothing is claimed about a payload the harness cannot even look at)
+		}
+	}()
+	switch code {
+	case protocol.StatusMsg:
+		return false
+	case protocol.BlockHashesMsg, protocol.NewBlockHashesMsg:
+		return true // an undecodable hashes message is dropped silently
+	case protocol.GetBlockHashesMsg:
+		var r getBlockHashesData
+		return dec(&r)
+	case protocol.GetBlockHashesFromNumberMsg:
+		var r getBlockHashesFromNumberData
+		return dec(&r)
+	case protocol.GetBlocksMsg:
+		var hs []types.Hash
+		return dec(&hs)
+	case protocol.BlocksMsg:
+		var l []*nom.DetailedMomentum
+		if !dec(&l) {
+			return false
+		}
+		for _, dm := range l {
+			if !statesOwnHash(dm.Momentum, genesis) {
+				return false
+			}
+		}
+		return true
+	case protocol.NewBlockMsg:
+		var dm *nom.DetailedMomentum
+		return dec(&dm)
+	case protocol.TxMsg:
+		var txs []*nom.AccountBlock
+		if !dec(&txs) {
+			return false
+		}
+		for _, tx := range txs {
+			if tx == nil {
+				return false
+			}
+		}
+		return true
+	}
+	return false
 }
 
 // one message of B. reqCode/reply: what A was asked and is about to answer (zero outside a window)
@@ -490,10 +562,15 @@ func (s *scenario) bInject(reqCode, replyCode uint64, reply []byte, violation bo
 			if code == protocol.BlockHashesMsg || code == protocol.NewBlockHashesMsg {
 				code = protocol.TxMsg // (an undecodable hashes message is swallowed by the handler)
 			}
-			var probe []*nom.AccountBlock
-			if code == protocol.TxMsg && rlp.DecodeBytes(payload, &probe) == nil {
+			if handlerTakes(code, payload, s.w.hashA[1]) { // random bytes that decode: a string where a list is expected
 				payload = []byte{0x80}
 			}
+		}
+		// armed only by a message the handler answers with an error by the harness's own reading of it
+		if handlerTakes(code, payload, s.w.hashA[1]) {
+			s.note(fmt.Sprintf("not-a-violation:%s-code-%d", what, code))
+			B.sendRaw(baseLen+code, payload, d)
+			return
 		}
 		s.note(fmt.Sprintf("violation:%s-code-%d", what, code))
 		if B.sendRaw(baseLen+code, payload, 10*time.Second) {
@@ -767,7 +844,17 @@ wait:
 			gone = true
 		case <-time.After(60 * time.Second):
 		}
-		out.Oracle(gone, "offending-peer-is-dropped", detail)
+		if !gone { // what the node's goroutines of B's connection are doing (stderr: the driver's log)
+			buf := make([]byte, 8<<20)
+			fmt.Fprintf(os.Stderr, "c15 peers: B not dropped 60 s after its violation; goroutines:\n%s\n", buf[:runtime.Stack(buf, true)])
+		}
+		s.mu.Lock()
+		last := append([]string{}, s.bActs...)
+		s.mu.Unlock()
+		if len(last) > 6 {
+			last = last[len(last)-6:]
+		}
+		out.Oracle(gone, "offending-peer-is-dropped", Tup("B's-last-acts", fmt.Sprint(last), "B-stuck", I64(int64(atomic.LoadInt32(&s.B.stuck))), detail))
 	}
 	// the node keeps serving the others
 	close(stop)
